@@ -293,6 +293,42 @@ filter: g and category == "@P2"
     return ob
 
 
+T_LAZY_FIELD = '''
+[Amazon]
+match: contains("@P1")
+category: Shopping
+field: items = (o.item for o in orders if o.amount == amount and o.date <= date)
+field: first = next((o.item for o in orders if o.date <= date), "none")
+field: n = len([o for o in orders if o.amount > 9001])
+'''
+
+
+def lazy_field():
+    """A field: written as a generator expression is lazy; whatever normalize_merchant does with it, an item it cannot be
+    evaluated for must not abort the classification."""
+    def ob(desc: str, amount: int, s1: str, n1: int, r1: int) -> bool:
+        """
+        pre: len(desc) <= 2 and len(s1) <= 1
+        post: _
+        """
+        from datetime import date
+        from harness import tmpl
+        from tally import merchant_utils
+        reset_tally_caches()
+        eng = tmpl.load(T_LAZY_FIELD, {'@P1': s1, 9001: n1})
+        merchant_utils._cached_engine = eng
+        rows = {'orders': [{'amount': r1, 'item': 'book', 'date': date(2024, 1, 1)}, {'amount': amount, 'item': 'pending', 'date': 'Pending'}]}
+        real = merchant_utils.extract_merchant_name
+        merchant_utils.extract_merchant_name = lambda d: 'FALLBACK'
+        try:
+            m, c, s, info = merchant_utils.normalize_merchant(desc, [], amount=amount, txn_date=date(2024, 5, 6), data_sources=rows)
+        finally:
+            merchant_utils.extract_merchant_name = real
+        exp = 'Shopping' if s1.upper() in desc.upper() else 'Unknown'
+        return post(c == exp)
+    return ob
+
+
 def obligations(tier, seed):
     q = tier == 'quick'
     obs = []
@@ -307,6 +343,8 @@ def obligations(tier, seed):
                               bounds='description <= 2, operands <= 1 char / ints'))
     obs.append(Obligation(id='legacy-dynamic-tag', factory='legacy_dynamic_tag', timeout=to, reals=True, group='legacy loop',
                           bounds='one CSV tuple with ill-typed dynamic tags; description <= 2, field <= 1 char over (a,B,blank)'))
+    obs.append(Obligation(id='lazy-field', factory='lazy_field', timeout=to, group='failing variable / let / field / tag',
+                          bounds='rule with generator-valued / partial field: directives through normalize_merchant; description <= 2, operands <= 1 char / ints'))
     obs.append(Obligation(id='failing-transform', factory='failing_transform', timeout=to, group='failing transforms',
                           bounds='4 transforms without a value; description <= 2, prefix <= 1'))
     for i, e in enumerate(BAD_FILTERS):
